@@ -379,6 +379,14 @@ ServerPartial(w) ==
     /\ c.sock = "On" /\ c.wrap /\ ~c.frag
     /\ Apply(R0([c EXCEPT !.frag = TRUE]), [k |-> "Partial", what |-> w])
 
+\* The remote end goes silent for longer than the client's keep-alive interval while no session
+\* exists.  The keep-alive (ping) timer only runs during a session, so nothing is written.  (Not part
+\* of Next: time is not a dimension of the exhaustive model; the step is appended to selected
+\* behaviours by lib/props/_stream.py and followed here by the trace specification.)
+Stall ==
+    /\ c.sock = "On" /\ ~c.session
+    /\ Apply(R0(c), [k |-> "Stall"])
+
 \* the connection drops (peer abort)
 Cut ==
     /\ c.sock = "On"
